@@ -11,7 +11,11 @@ import (
 
 func pt(p unsafe.Pointer, note string) {
 	if verifrt.On() {
-		verifrt.Point(uintptr(p), verifrt.KAtomic, note)
+		k := verifrt.KAtomic
+		if len(note) >= 4 && (note[:4] == "Load" || note[len(note)-4:] == "Load") {
+			k = verifrt.KAtomicLoad
+		}
+		verifrt.Point(uintptr(p), k, note)
 	}
 }
 
